@@ -145,6 +145,10 @@ RunGens(t, ms, gs) == IF gs = <<>> THEN ms ELSE RunGens(t, RunGenOn(t, ms, Head(
 
 GensOf(t, p) == SelectSeq(t.gens, LAMBDA g : g.p = p /\ ~g.last)
 SupSlot(t, p) == LET c == SelectSeq(t.gens, LAMBDA g : g.p = p /\ g.last) IN c[1].slots[1]
+\* inside the compiled horizon every partition is closed by an (un-masked) supervisor step; the runtime executes the supervisor
+\* without looking at its mask, so a masked supervisor slot inside the horizon is an execution of a masked tick
+SupMasked(t, p) == LET c == SelectSeq(t.gens, LAMBDA g : g.p = p /\ g.last) IN c = <<>> \/ c[1].slots = <<>>
+MaskedErr(p) == Err("ExactlyOnce_MaskedSupervisorSlot", <<p, T.sup>>, "supervisor step p closes partition p", "masked slot inside the horizon")
 
 ---------------------------------------------------------------------------
 MS == [st |-> [hcur |-> hcur, nexec |-> nexec, ring |-> ring, exec |-> exec], lp |-> lp, err |-> NoErr]
@@ -154,7 +158,9 @@ DoRU ==
   LET s == Clip(T, step)
       ms == RunGens(T, MS, GensOf(T, s))
       sup == SupSlot(T, s)
-  IN IF ms.err # NoErr
+  IN IF SupMasked(T, s)
+     THEN err' = MaskedErr(s) /\ UNCHANGED <<tid, opi, step, hcur, nexec, ring, supss, exec, lp, fin>>
+     ELSE IF ms.err # NoErr
      THEN err' = ms.err /\ UNCHANGED <<tid, opi, step, hcur, nexec, ring, supss, exec, lp, fin>>
      ELSE /\ hcur' = ms.st.hcur /\ nexec' = ms.st.nexec /\ ring' = ms.st.ring /\ exec' = ms.st.exec /\ lp' = ms.lp
           /\ supss' = [seq |-> sup.seq, start |-> sup.start, wins |-> [a \in DOMAIN sup.wins |-> ReadWin(T, ms.st.ring, a, sup.wins[a])]]
